@@ -98,29 +98,29 @@ func (e *evidence) write() {
 		}
 	}
 	cov := map[string]any{
-		"evaluations":         e.runs,
-		"distinct_nontrivial": len(e.distinct),
-		"rule":                e.p.Rule,
-		"samples":             e.samples,
-		"nontrivial_runs":     e.nontrivial,
-		"runs_by_engine":      e.perPart,
-		"seeds":               []uint64{e.seed},
-		"runs_per_hour":       int(float64(e.runs) / (e.wall + 1e-9) * 3600),
-		"sim_seconds_covered": e.simSeconds,
-		"events":              e.events,
-		"faults_fired":        group("fault."),
-		"probes":              group("probe."),
-		"rare_conditions":     group("reach."),
-		"counters":            other,
-		"reach_tuples":        len(reachKeys),
-		"reach_tuple_samples": reachSample,
-		"counters_stuck_at_zero": zero,
-		"components":          e.p.Components,
-		"harness_errors":      e.harnessErrs,
-		"harness_error_samples": e.harnessSamples,
-		"known_finding_hits":  e.known,
+		"evaluations":                         e.runs,
+		"distinct_nontrivial":                 len(e.distinct),
+		"rule":                                e.p.Rule,
+		"samples":                             e.samples,
+		"nontrivial_runs":                     e.nontrivial,
+		"runs_by_engine":                      e.perPart,
+		"seeds":                               []uint64{e.seed},
+		"runs_per_hour":                       int(float64(e.runs) / (e.wall + 1e-9) * 3600),
+		"sim_seconds_covered":                 e.simSeconds,
+		"events":                              e.events,
+		"faults_fired":                        group("fault."),
+		"probes":                              group("probe."),
+		"rare_conditions":                     group("reach."),
+		"counters":                            other,
+		"reach_tuples":                        len(reachKeys),
+		"reach_tuple_samples":                 reachSample,
+		"counters_stuck_at_zero":              zero,
+		"components":                          e.p.Components,
+		"harness_errors":                      e.harnessErrs,
+		"harness_error_samples":               e.harnessSamples,
+		"known_finding_hits":                  e.known,
 		"violations_of_other_properties_seen": e.otherProps,
-		"exhaustive":          false,
+		"exhaustive":                          false,
 	}
 	out := map[string]any{
 		"property_id": e.id,
